@@ -10,13 +10,13 @@ from . import tlc
 CFG_DEFAULTS = dict(
     routine="?", nenvs=1, budget=-1, start=0, eplimit=0, warmlearn=-1, warmact=-1, explore_only_in_warmup=False,
     ulpk=0, policy_probe=False, check_act=True, ret_applicable=False, trained=[], targets=[], frozen=[], autoreset=False,
-    epsilon4=-1, rules=[], segment="add",
+    epsilon4=-1, rules=[], segment="add", check_term=True, check_next=True, check_bounds=True,
 )
 RULE_DEFAULTS = dict(comps=[], counter="always", mod=1, rem=0, after=0, needs_sample=True)
 EV_DEFAULTS = dict(
     env=0, obs=[-1, -1, -1], next=[-1, -1, -1], act="none", r4=0, term=False, trunc=False, after_end=False,
     box=False, a=[], lo=[], hi=[], finite=True, valid=True, n=0, key="", changed=[], step=-1,
-    chosen=-1, argmax=[], current=True,
+    chosen=-1, argmax=[], current=True, auto=False, chk_next=True, chk_term=True,
 )
 
 
@@ -29,7 +29,7 @@ def normalise(trace):
     evs = []
     for e in trace["events"]:
         n = dict(EV_DEFAULTS)
-        for k in ("ev", "env", "obs", "next", "r4", "term", "trunc", "after_end", "n", "key", "step", "chosen", "argmax", "current"):
+        for k in ("ev", "env", "obs", "next", "r4", "term", "trunc", "after_end", "n", "key", "step", "chosen", "argmax", "current", "auto", "chk_next", "chk_term"):
             if k in e:
                 n[k] = e[k]
         if "act" in e:
@@ -66,10 +66,9 @@ def validate(traces, tag="looptrace", timeout=900):
         os.remove(path)
     out = {}
     for line in r.stdout.splitlines():
-        m = _VERDICT.match(line.strip())
-        if m:
-            out[m.group(1)] = dict(executed=int(m.group(2)), episodes=int(m.group(3)), updates=int(m.group(4)),
-                                   viol=[(int(a), b) for a, b in _PAIR.findall(m.group(5))])
+        if line.startswith('<<"VERDICT", "'):
+            d = json.loads(json.loads(line[len('<<"VERDICT", '):-2]))
+            out[d["id"]] = dict(executed=d["executed"], episodes=d["episodes"], updates=d["updates"], viol=sorted((int(a), b) for a, b in d["viol"]))
     missing = [t["id"] for t in norm if t["id"] not in out]
     if missing:
         raise tlc.MachineryError(f"LoopTrace gave no verdict for traces {missing}: {r.stdout[-1500:]}")
